@@ -245,6 +245,8 @@ def execute(st, ctx):
 
     if sim.deadlock:
         out.violate("C15.deadlock", sig, describe())
+    elif sim.capped:
+        out.violate("C15.calls_do_not_terminate", sig, dict(describe(), steps=sim.seq))
     elif not sim.capped:
         for t in tasks:
             if t.error is not None and t.error is not t.cancelled_with:
